@@ -54,6 +54,8 @@ def classes(plan):
         d["targets"] = tl
     if plan.get("brk"):
         d["brk"] = "+".join(plan["brk"])
+    if plan.get("plen", 0) > 5:
+        d["plen" if plan["plat"] == "sgx" else "extra_elements"] = plan["plen"]
     return d
 
 
@@ -214,6 +216,10 @@ def run(ctx):
         "an SGX attestation file that lists a VALID element other than the quote as a target makes the command "
         "end with an internal error (NotImplementedError); such inputs may be refused (verdict open in that "
         "direction only, spec/VerifyProps.tla SgxExtraTargetOpen); reported to the coordinator",
+        "files at scale: SGX certification paths of 255..400 elements (fresh X.509 chain per file, it takes "
+        "60 ms) and Ledger files with 250 / 300 unrelated well-formed elements ahead of the genuine ones, "
+        "genuine and with one forged element at the top / middle / bottom X.509, the attestation key or the "
+        "quote; combined only with deviations that concern the chain (root, targets list, forged elements)",
         "no network: `requests` inside admin.attestation_utils is replaced by a stub serving the plan's URLs "
         "(also the default Intel URL) and refusing everything else; stdout is captured by redirection",
         "inside a class (keys, message contents, how many bytes are cut / added, which link is corrupted, "
@@ -273,7 +279,8 @@ def run(ctx):
     for bi in order:
         b = behaviours[bi]
         i = b["inp"]
-        crossed = i["targets"] not in (["ui", "signer"], ["quote"]) and (i["brk"] or i["root"] == "wrong")
+        crossed = (i["targets"] not in (["ui", "signer"], ["quote"]) or i["plen"] > 5) and \
+            (i["brk"] or i["root"] == "wrong")
         if b["ndev"] <= full_upto or (crossed and b["ndev"] == 2):
             # (a targets list crossed with where the chain is broken: every kind of corruption of that element)
             nvar = n_variants(b["inp"]) if b["ndev"] <= full_upto else 5
@@ -364,6 +371,11 @@ def run(ctx):
     res.add_validation(stats, accepted)
     res.coverage["distinct_abstract_classes_hit"] = len(seen)
     res.coverage["outcomes"] = {"%s:%s" % k: n for k, n in sorted(outcomes.items())}
+    longs = [m for _t, m in runs if m["plan"]["plen"] > 5]
+    res.coverage["files_at_scale"] = {
+        "replayed": len(longs), "returned": sum(1 for m in longs if m["outcome"] == "return"),
+        "sgx_path_lengths": sorted({m["plan"]["plen"] for m in longs if m["plan"]["plat"] == "sgx"})[-8:],
+        "ledger_extra_elements": sorted({m["plan"]["plen"] for m in longs if m["plan"]["plat"] == "ledger"})[-4:]}
     res.coverage["open_verdicts_sgx_valid_extra_target"] = sum(
         1 for _t, m in runs if m["plan"]["plat"] == "sgx" and m["plan"]["root"] == "right" and any(
             r != "quote" and not (vo.SGX_PATH[r] & set(m["plan"]["brk"])) for r in m["plan"]["targets"]))
